@@ -222,7 +222,7 @@ class MATCHConv2d(nn.Conv2d, MATCHModule):
 
         # Integer approximation #
         params = {}
-        upper_bound = 2 ** (self.scale_bit - 1)
+        upper_bound = 2 ** (self.scale_bit - 1) - 1  # largest signed `scale_bit`-bit integer
         # Create a dict indexed by possible shift amounts, each entry of the dict
         # contains a list where for each channel a `scale` factor is selected as
         # the one minimizing abs(scale / 2**shift - target).
